@@ -89,6 +89,7 @@ func cmdRun(args []string) int {
 			h, st.Paths, st.Vacuous, st.Panicked, st.Unsupported, st.CapHit, st.Decisions, st.Obligations, st.Discharged,
 			st.ConcreteObl, st.Inconclusive, st.Steps, ex.Solver.Queries, ex.Solver.Sat, ex.Solver.Unsat, ex.Solver.Unknown,
 			ex.Solver.Errors, ex.Solver.Time.Seconds(), time.Since(t1).Seconds())
+		fmt.Printf("  query cache: hits=%d misses=%d\n", QCHits, QCMiss)
 		for _, k := range ex.SortedKeys(ex.Unsupp) {
 			fmt.Printf("  UNSUPPORTED x%d: %s\n", ex.Unsupp[k], k)
 		}
